@@ -10,7 +10,7 @@ use std::time::Duration;
 
 pub static PROP: Prop = Prop {
     id: "C01",
-    rule: "cases: (b) token soup: 0-60 fragments from 14 character/token classes (operator characters and spellings, delimiters, digit runs with . e E + -, balanced and unbalanced quotes, ; , whitespace, names, keywords, 2/3/4-byte scalars, other first characters, odd whitespace), glued without separator 3/4 of the time, plus corrupted valid programs; each input goes through parse_expression, execute (empty context) and, for every Ok(ast), expr(), describe() and drop, under catch_unwind; (c) depth classes: for each recursive construct (paren, bracket, brace-map, call, prefix -, prefix not, conditional then-nest and else-nest, left infix chain, right assignment chain, identifier run, statements, unclosed openers, prefix over parenthesised infix, postfix over parens, list-in-map-in-call mix, `not OP` chain) and each depth of a ladder (1..48 dense, 64, 100, 300, 1000, 3000, 10000 [thorough: 30000, 100000]) one child process per (construct, depth, build profile dev/release) runs parse -> expr -> describe -> exec -> drop on the main thread (8 MiB stack) under a 30 s watchdog. Any panic, any abort (signal) and any reproducible watchdog expiry is a failure; depth <= 1000 must never abort. Non-trivial: the input contains a non-ASCII scalar, or an unterminated/mismatched construct, or nesting/chain depth >= 8; distinct by input hash (soup) / (construct, depth, profile) (ladder).",
+    rule: "cases: (b) token soup: 0-60 fragments from 14 character/token classes (operator characters and spellings, delimiters, digit runs with . e E + -, balanced and unbalanced quotes, ; , whitespace, names, keywords, 2/3/4-byte scalars, other first characters, odd whitespace), glued without separator 3/4 of the time, plus corrupted valid programs, plus the operator x edge-palette programs of C04, all in the dev AND the release build (paired shards); each input goes through parse_expression, execute (empty context) and, for every Ok(ast), expr(), describe() and drop, under catch_unwind; (c) depth classes: for each recursive construct (paren, bracket, brace-map, call, prefix -, prefix not, conditional then-nest and else-nest, left infix chain, right assignment chain, identifier run, statements, a whitespace run at one token boundary, unclosed openers, prefix over parenthesised infix, postfix over parens, list-in-map-in-call mix, `not OP` chain) and each depth of a ladder (1..48 dense, 64, 100, 300, 1000, 3000, 10000; 10^5 and 10^6 for the iteratively handled constructs [thorough: 2000, 5000, 30000, 100000 for all]) one child process per (construct, depth, build profile dev/release) runs parse -> expr -> describe -> exec -> drop on the main thread (8 MiB stack) under a 30 s watchdog. Any panic, any abort (signal) and any reproducible watchdog expiry is a failure; depth <= 1000 must never abort. Non-trivial: the input contains a non-ASCII scalar, or an unterminated/mismatched construct, or nesting/chain depth >= 8; distinct by input hash (soup) / (construct, depth, profile) (ladder).",
     assumptions: &[
         "termination is decided by a 30 s watchdog in a child process (normal run time is milliseconds); an expiry must reproduce twice to count, otherwise the run is inconclusive (exit 2)",
         "stack exhaustion is judged on the default 8 MiB main-thread stack in both build profiles",
@@ -26,10 +26,11 @@ pub static PROP: Prop = Prop {
 
 fn budget(t: Tier) -> Budget {
     Budget {
-        cases: t.pick(1_500_000, 20_000_000),
+        cases: t.pick(600_000, 8_000_000),
         max_len: 260,
         shards: 16,
-        dual_profile: false,
+        // soup and edge programs run in the dev build (odd shards) as well as in release
+        dual_profile: true,
     }
 }
 
@@ -160,9 +161,9 @@ fn case(src: &mut Src, st: &mut Stats, _env: &Env) -> CaseResult {
 
 // ----- depth ladder -----
 
-pub const CONSTRUCTS: [&str; 18] = [
+pub const CONSTRUCTS: [&str; 19] = [
     "paren", "bracket", "brace", "call", "prefix-minus", "prefix-not", "prefix-bang", "cond-then", "cond-else", "left-chain", "right-chain", "names",
-    "statements", "unclosed", "prefix-over-paren-infix", "postfix-over-paren", "mixed", "not-op-chain",
+    "statements", "whitespace-run", "unclosed", "prefix-over-paren-infix", "postfix-over-paren", "mixed", "not-op-chain",
 ];
 
 pub fn build(construct: &str, n: usize) -> String {
@@ -181,6 +182,8 @@ pub fn build(construct: &str, n: usize) -> String {
         "right-chain" => format!("{}1", rep("a=", n)),
         "names" => rep("a ", n),
         "statements" => rep("1;", n),
+        // one token boundary with n blanks (all four whitespace characters)
+        "whitespace-run" => format!("1{}+ 1", rep(" \t\r\n", n / 4 + 1)),
         "unclosed" => rep("(", n),
         "prefix-over-paren-infix" => format!("{}1{}", rep("-(", n), rep("+1)", n)),
         "postfix-over-paren" => format!("{}1{}", rep("(", n), rep(")++", n)),
@@ -250,8 +253,9 @@ fn run_depth(construct: &str, depth: usize, profile: &str, env: &Env, st: &mut S
     let exe = if profile == "dev" {
         std::path::PathBuf::from(format!("{}/out/target/debug/vh", VERIF))
     } else {
-        env.exe.clone()
+        std::path::PathBuf::from(format!("{}/out/target/release/vh", VERIF))
     };
+    let _ = env;
     let scenario = json!({"construct": construct, "depth": depth});
     let case = json!({"construct": construct, "depth": depth, "profile": profile});
     let mut attempts = 0;
@@ -316,11 +320,17 @@ fn run_depth(construct: &str, depth: usize, profile: &str, env: &Env, st: &mut S
     }
 }
 
-fn ladder(t: Tier) -> Vec<usize> {
+fn ladder(t: Tier, construct: &str) -> Vec<usize> {
     let mut v: Vec<usize> = (1..=48).collect();
     v.extend([64, 100, 300, 1000, 3000, 10000]);
+    // constructs that are handled iteratively are cheap: they go much further already in quick
+    if matches!(construct, "names" | "statements" | "whitespace-run") {
+        v.extend([100_000, 1_000_000]);
+    }
     if t == Tier::Thorough {
         v.extend([2000, 5000, 30000, 100000]);
+        v.sort();
+        v.dedup();
     }
     v
 }
@@ -337,9 +347,28 @@ fn fixed(env: &Env, st: &mut Stats) -> CaseResult {
             check_text(t, st)?;
         }
     }
+    // edge-of-domain programs (C04's operator x palette table) in this shard's own build profile
+    {
+        let (pair, pairs) = (env.shard / 2, (env.of / 2).max(1));
+        let mut j = 0u64;
+        for op in crate::props::c04::OPS {
+            for a in crate::props::c04::PALETTE {
+                for b in crate::props::c04::PALETTE {
+                    j += 1;
+                    if (j % pairs as u64) as usize != pair {
+                        continue;
+                    }
+                    st.eval();
+                    st.hist(&format!("edge-program:{}", PROFILE));
+                    check_text(&format!("{} {} {}", a, op, b), st)?;
+                    check_text(&format!("x = {} ; x {}= {}", a, op, b), st)?;
+                }
+            }
+        }
+    }
     let mut i = 0u64;
     for c in CONSTRUCTS {
-        for d in ladder(env.tier) {
+        for d in ladder(env.tier, c) {
             for profile in ["release", "dev"] {
                 i += 1;
                 if !env.mine(i) {
